@@ -373,7 +373,8 @@ _TILTS = [np.eye(3), geom.rotation_from_quaternion(np.array([0.9, 0.3, -0.2, 0.2
 def _ext_case(draw):
     n = draw(st.integers(3, 9))
     pts = draw(st.lists(st.tuples(st.integers(0, 7), st.integers(0, 7)), min_size=n, max_size=n, unique=True))
-    return {"pts": [list(p) for p in pts], "logs": draw(st.sampled_from([k / 2.0 for k in range(-6, 7)])), "tilt": draw(st.integers(0, 3))}
+    return {"pts": [list(p) for p in pts], "logs": draw(st.sampled_from([k / 2.0 for k in range(-6, 7)])), "tilt": draw(st.integers(0, 3)),
+            "shift": [draw(st.integers(0, 8)), draw(st.integers(0, 8)), draw(st.integers(0, 3))]}
 
 
 def _lattice_extrusion(case, rec):
@@ -424,8 +425,13 @@ def _lattice_extrusion(case, rec):
     rec.concrete = {"polygon": pts, "scale": s, "tilt": case["tilt"]}
     rec.label("caps:" + sig["caps"], "scale!=1" if s != 1 else None, "small_scale" if s < 0.1 else None)
     rec.nontrivial = (not convex) and s != 1
+    # the copy also lists every face starting from another of its vertices (a relabelling the property names)
+    sh = case.get("shift", [0, 0, 0])
+    F1 = [f_[sh[min(k, 2)] % len(f_):] + f_[:sh[min(k, 2)] % len(f_)] for k, f_ in enumerate(F)]
+    if F1 != F:
+        rec.label("faces_cyclically_shifted")
     x = call(S.Polyhedron, V0.copy(), [np.array(f_) for f_ in F], convex)
-    gx = call(S.Polyhedron, V1.copy(), [np.array(f_) for f_ in F], convex)
+    gx = call(S.Polyhedron, V1.copy(), [np.array(f_) for f_ in F1], convex)
     if isinstance(x, Raised) or isinstance(gx, Raised):
         rec.check(isinstance(x, Raised) and isinstance(gx, Raised), "covariant_construct", sig, x=repr(x)[:80], gx=repr(gx)[:80])
         return
